@@ -3,9 +3,12 @@
 package cmd
 
 import (
+	"context"
 	"strconv"
+	"time"
 
 	"github.com/daeuniverse/dae/common/consts"
+	"github.com/sirupsen/logrus"
 	vs "github.com/daeuniverse/dae/zz_vs"
 )
 
@@ -130,10 +133,6 @@ func Verif_C20_protocol() {
 		w.signal(vs.Choice("sig0.suspend", 2) == 1)
 		vs.Yield() // signals arrive at arbitrary times: the worker may get anywhere before the next one
 		w.signal(false)
-		if vs.Thorough() {
-			vs.Yield()
-			w.signal(false)
-		}
 	}()
 	vs.Join()
 	vs.Assert("muting lifted once everything has settled", w.open() == 0)
@@ -147,4 +146,40 @@ func Verif_C20_protocol() {
 	vs.Assert("a new request is accepted after every outcome", ok)
 	vs.Join()
 	vs.Assert("and it is processed and released too", w.open() == 0 && !w.m.reloadPending.Load())
+}
+
+// ---- retirement of the previous generation always ends ----
+
+type c20Plane struct {
+	sessions int
+	idle     chan struct{}
+	aborted  int
+}
+
+func (p *c20Plane) ActiveSessionCount() int          { return p.sessions }
+func (p *c20Plane) DrainIdleCh() <-chan struct{}     { return p.idle }
+func (p *c20Plane) AbortConnections() error          { p.aborted++; return nil }
+
+// Verif_C20_retirement: the old generation still has a session that never goes idle. Whatever the
+// remaining drain budget (including none at all, when the reload itself used it up), whether the
+// generations share dialers and whether an abort was requested, retiring its connections comes to
+// an end - and so the reload that waits for it is released. A budget of zero means "do not wait",
+// not "wait for ever".
+func Verif_C20_retirement() {
+	vs.Schedules(0)
+	log := logrus.New()
+	log.SetLevel(logrus.PanicLevel)
+	plane := &c20Plane{sessions: vs.Choice("activeSessions", 2), idle: make(chan struct{})}
+	budget := []time.Duration{0, 5 * time.Second}[vs.Choice("budgetLeft", 2)]
+	abort, overlap := vs.Choice("abortRequested", 2) == 1, vs.Choice("dialerOverlap", 2) == 1
+	done := false
+	go func() {
+		retireControlPlaneConnections(log, context.Background(), plane, abort, overlap, budget)
+		done = true
+	}()
+	vs.Join()
+	vs.Assert("retiring the old generation's connections always comes to an end", done)
+	if plane.sessions > 0 {
+		vs.Assert("sessions that do not go idle are aborted when the budget is over", plane.aborted >= 1)
+	}
 }
